@@ -467,9 +467,67 @@ Proof.
       * now apply Bool.negb_true_iff.
 Qed.
 
-Theorem okb_spec : forall c, C27Chk.okb c = true <-> forall s, In s (c_steps c) -> sstep_okp (c_untracked c) s.
+Definition inside (m : path -> bool) (d0 d1 : fs) : Prop :=
+  forall q, lookup d0 q <> lookup d1 q ->
+    is_leaf (lookup d0 q) = true \/ is_leaf (lookup d1 q) = true -> m q = true.
+
+Lemma inside_b_spec : forall m d0 d1, inside_b m d0 d1 = true <-> inside m d0 d1.
 Proof.
-  intros c. unfold C27Chk.okb. rewrite forallb_forall. split; intros H s Hs; apply sstep_ok_spec; auto.
+  intros m d0 d1. unfold inside_b, inside. rewrite forallb_forall. split.
+  - intros H q Hne Hleaf.
+    assert (Hin : exists e, In (q, e) (d0 ++ d1)).
+    { destruct (lookup d0 q) as [e|] eqn:E0; [exists e; apply in_or_app; left; now apply lookup_In|].
+      destruct (lookup d1 q) as [e|] eqn:E1; [exists e; apply in_or_app; right; now apply lookup_In|].
+      congruence. }
+    destruct Hin as [e Hin]. specialize (H (q, e) Hin). cbn in H.
+    apply Bool.orb_true_iff in H as [H|H]; [|exact H].
+    apply Bool.orb_true_iff in H as [H|H].
+    + apply opt_entry_eqb_spec' in H. contradiction.
+    + apply Bool.negb_true_iff in H. destruct Hleaf as [Hl|Hl]; rewrite Hl in H; cbn in H;
+        [discriminate | rewrite Bool.orb_true_r in H; discriminate].
+  - intros H [q e] _. cbn.
+    destruct (option_eqb entry_eqb (lookup d0 q) (lookup d1 q)) eqn:Ee; [reflexivity|]. cbn.
+    destruct (is_leaf (lookup d0 q) || is_leaf (lookup d1 q)) eqn:El; [|reflexivity]. cbn.
+    apply H.
+    + intros Hx. rewrite (proj2 (opt_entry_eqb_spec' _ _) Hx) in Ee. discriminate.
+    + now apply Bool.orb_true_iff in El.
+Qed.
+
+Lemma list_path_eqb_spec : forall a b : list path, list_eqb path_eqb a b = true <-> a = b.
+Proof.
+  induction a as [|x a IH]; destruct b as [|y b]; cbn; try (split; congruence).
+  rewrite Bool.andb_true_iff, IH, path_eqb_spec. split; [intros [-> ->]; reflexivity | intros E; inversion E; auto].
+Qed.
+
+Definition sess_okp (u : fs) (st : sess_step) : Prop :=
+  match st with
+  | SeSparse s after =>
+      sstep_okp u s /\ after = match ss_res s with ROk _ => ss_new s | _ => ss_old s end
+  | SeSnap t sp d r =>
+      exists sn, r = Some sn
+        /\ forall p v, In (p, v) t -> matches sp p = false -> leaf sn p = Some v
+  | SeCheckout t sp d0 t2 res tr d1 =>
+      C25Main.untouched (diff_fs (matches sp) t t2) d0 d1
+      /\ C25Main.confined (diff_fs (matches sp) t t2) d0 d1
+      /\ inside (matches sp) d0 d1
+  end.
+
+Theorem sess_ok_spec : forall u st, sess_ok u st = true <-> sess_okp u st.
+Proof.
+  intros u st. destruct st as [s after|t sp d r|t sp d0 t2 res tr d1]; cbn [sess_ok sess_okp].
+  - rewrite Bool.andb_true_iff, sstep_ok_spec, list_path_eqb_spec. reflexivity.
+  - destruct r as [sn|].
+    + rewrite outside_kept_spec. split; [intros H; exists sn; auto | intros [sn' [E H]]; inversion E; subst; exact H].
+    + cbn. split; [discriminate | intros [sn [E _]]; discriminate].
+  - rewrite !Bool.andb_true_iff, C25Main.untouched_b_spec, C25Main.confined_b_spec, inside_b_spec. tauto.
+Qed.
+
+Theorem okb_spec : forall c, C27Chk.okb c = true <->
+  (forall s, In s (c_steps c) -> sstep_okp (c_untracked c) s)
+  /\ (forall st, In st (c_session c) -> sess_okp (c_untracked c) st).
+Proof.
+  intros c. unfold C27Chk.okb. rewrite Bool.andb_true_iff, !forallb_forall.
+  split; intros [H1 H2]; (split; [intros s Hs; apply sstep_ok_spec; auto | intros st Hs; apply sess_ok_spec; auto]).
 Qed.
 
 (** The hypotheses of [set_sparse_clean], decided on a clean recorded step. *)
